@@ -60,6 +60,16 @@ func c07Gen(rng *verifsim.RNG, idx int, tier string) *Plan {
 		if pat == 1 && rng.Bool(0.2) {
 			a.N = rng.Range(10, 40) // more than the 16-slot request queue
 		}
+		if rng.Bool(0.1) {
+			// another host's solicitation (or one from ::) in the socket right
+			// behind this one: both are handed over before the scheduler runs
+			o := hostAddr(rng.Intn(nh))
+			if rng.Bool(0.3) {
+				o = "::"
+			}
+			t := rsAction(a.At, o)
+			a.Then = &t
+		}
 		p.Actions = append(p.Actions, a)
 	}
 	if rng.Bool(0.2) {
